@@ -912,3 +912,4 @@ def finish(tier, rep: Report):
     if rep.counters.get("weight_vectors", 0) < 1000:
         fails.append("exhaustive weight vectors not swept")
     return fails
+
